@@ -97,6 +97,37 @@ Theorem C03_flat_refines :
 Proof. intros. now apply do_run_ref. Qed.
 Print Assumptions C03_flat_refines.
 
+(* ... and even the whole event trace: Enter of every root doer in order (a doer
+   that returns at once: Enter Clean Exit), per cycle and per due doer Recur or
+   Recur Clean Exit, at the end Cease Exit of the survivors in reverse enter order,
+   DoReturn; all with their tymes (ref_trace, Proofs/SchedCycleDue.v). *)
+Theorem C03_flat_trace :
+  forall (T : Type) (TT : Time T) (cycles fuel : nat) (p : prog T),
+    flat_static p = true -> oof (do_run cycles fuel p) = false ->
+    ref_trace cycles p = Some (trace (do_run cycles fuel p)).
+Proof. intros. now apply do_run_trace. Qed.
+Print Assumptions C03_flat_trace.
+
+(* the one-pass specification behind it, from any state: if the root deque holds
+   the entries q (suspended quiet leaves at their pcs, pairwise distinct: Good),
+   one recur pass does exactly what ref_pass says - the due doers are sent once
+   each in deque order, the new deque is the list of updated entries *)
+Theorem C03_pass_refines :
+  forall (T : Type) (TT : Time T) (tk : T) (D : amap (fdef T)) (f : nat) (s : st T) (q : list (@rdoer T)) s' g,
+    recur_pass tk f s 0%N = (s', g) -> g <> GFuel ->
+    deeds (get_sched s 0%N) = map deed_of q -> Good D s q ->
+    g = GReturn /\
+    deeds (get_sched s' 0%N) = map deed_of (fst (ref_pass D (tyme s) tk q)) /\
+    Good D s' (fst (ref_pass D (tyme s) tk q)) /\
+    recs s' = rev (snd (ref_pass D (tyme s) tk q)) ++ recs s /\
+    trace s' = pass_evs D (tyme s) q ++ trace s /\ tyme s' = tyme s.
+Proof.
+  intros T TT tk D f s q s' g E NF Dq Gd. pose proof (pass_ref tk D f s q s' g E NF Dq Gd) as P.
+  destruct (ref_pass D (tyme s) tk q) as [q' o]. cbn [fst snd].
+  destruct P as (P1 & P2 & P3 & P4 & P5 & _ & P7). repeat (split; try assumption).
+Qed.
+Print Assumptions C03_pass_refines.
+
 (* ... hence: the recur steps of a run split into one block per cycle; block k
    happens at tyme  grid k  (every doer observes the cycle's tyme), its doers
    are a sub-sequence of the enter order p_doers (so: in enter order, each at
@@ -207,7 +238,12 @@ Example C03_example_flat :
                               [(1%N, 20%Z); (2%N, 20%Z)]], 22%Z, true) /\
   recur_steps (do_run 50 100 ex_flat) =
     [(1%N, 10%Z); (2%N, 10%Z); (2%N, 12%Z); (1%N, 14%Z); (2%N, 14%Z); (1%N, 16%Z); (1%N, 20%Z); (2%N, 20%Z)] /\
-  tyme (do_run 50 100 ex_flat) = 22%Z.
+  tyme (do_run 50 100 ex_flat) = 22%Z /\
+  option_map (fun tr => map (fun e => (e_kind e, e_id e, e_tyme e)) (rev tr)) (ref_trace 50 ex_flat) =
+    Some [(Enter, 1%N, 10%Z); (Enter, 2%N, 10%Z); (Enter, 3%N, 10%Z); (Clean, 3%N, 10%Z); (Exit, 3%N, 10%Z);
+          (Recur, 1%N, 10%Z); (Recur, 2%N, 10%Z); (Recur, 2%N, 12%Z); (Recur, 1%N, 14%Z); (Recur, 2%N, 14%Z);
+          (Recur, 1%N, 16%Z); (Recur, 1%N, 20%Z); (Clean, 1%N, 20%Z); (Exit, 1%N, 20%Z);
+          (Recur, 2%N, 20%Z); (Clean, 2%N, 20%Z); (Exit, 2%N, 20%Z); (DoReturn, 0%N, 22%Z)].
 Proof. vm_compute. repeat split. Qed.
 
 (* doer 1 asks for t = 3 with scheduler tock 2: due 10, 13, 16, 19 -> run at 10, 14, 16, 20 (no drift) *)
